@@ -57,6 +57,25 @@ CasePair(kind, P, Q, R, a, b) ==
               [parallel |-> Parallel(L1, L2), meets |-> Meets(L1, L2), same |-> SameLine(L1, L2),
                dist2 |-> Dist2Lines(L1, L2), recip |-> Recip(L1, L2)])
 
+\* a NEARLY parallel pair: L1 through P, Q with direction w = P - Q; L2 through R with direction K w + e where e is
+\* orthogonal to w and non-zero.  For EVERY K >= 1 the pair is not parallel, the common normal is w x e and the lines
+\* meet exactly when (R - P) . (w x e) = 0 (theorem ThNear below, checked for several K); so the answers can be stated
+\* without the huge K (2^10 .. 2^24, i.e. angles down to 1e-8) that the harness uses for the direction w + e / K.
+NearL2(P, Q, x, R, K) == LinePD(R, Add3(Scale3(K, Sub3(P, Q)), Cross(Sub3(P, Q), x)))
+CaseNear(P, Q, x, R, kexp) ==
+  /\ P # Q
+  /\ LET w == Sub3(P, Q)  e == Cross(w, x)  n == Cross(w, e) IN
+     /\ e # <<0,0,0>>
+     /\ Do([k |-> "near", P |-> P, Q |-> Q, e |-> e, R |-> R, kexp |-> kexp],
+           [parallel |-> FALSE, meets |-> (Dot(Sub3(R, P), n) = 0), n |-> n])
+
+ThNear == \A P \in Pts : \A Q \in Pts : \A x \in Dirs : \A R \in Pts : \A K \in {1, 2, 3, 8} :
+  (P # Q /\ Cross(Sub3(P, Q), x) # <<0,0,0>>) =>
+    LET w == Sub3(P, Q)  e == Cross(w, x)  n == Cross(w, e)  L1 == LinePQ(P, Q)  L2 == NearL2(P, Q, x, R, K) IN
+    /\ ~Parallel(L1, L2)
+    /\ Cross(L1.w, L2.w) = n
+    /\ (Meets(L1, L2) <=> Dot(Sub3(R, P), n) = 0)
+
 CaseHit(P, Q, pl) ==
   /\ P # Q
   /\ LET L == LinePQ(P, Q)  h == HitPlane(L, pl) IN
@@ -75,6 +94,7 @@ Next ==
   \/ \E m \in Motions : \E P \in Pts : \E Q \in Pts : CaseTransform(m, P, Q)
   \/ \E kind \in {"general", "parallel", "intersecting", "coincident"} : \E P \in Pts : \E Q \in Pts : \E R \in Pts :
         \E a \in {-2, 3} : \E b \in {2} : CasePair(kind, P, Q, R, a, b)
+  \/ \E P \in Pts : \E Q \in Pts : \E x \in Dirs : \E R \in Pts : \E kexp \in {10, 16, 22, 24} : CaseNear(P, Q, x, R, kexp)
   \/ \E P \in Pts : \E Q \in Pts : \E pl \in Planes : CaseHit(P, Q, pl)
   \/ \E p \in Pts : \E n \in Dirs : \E q1 \in Xs : \E q2 \in Pts : CasePlanePts(p, n, q1, q2)
 
